@@ -6,6 +6,7 @@ use xot::{NameId, Node, Xot};
 pub fn register(v: &mut Vec<(&'static str, crate::Harness)>) {
     v.push(("h_c13_deep_equal", h_c13_deep_equal));
     v.push(("h_c13_shallow", h_c13_shallow));
+    v.push(("h_c13_leaves", h_c13_leaves));
 }
 
 struct Names {
@@ -260,4 +261,57 @@ pub fn h_c13_shallow() {
     let tb = xot.first_child(b).unwrap();
     sym::check("shallow-equal-text", xot.shallow_equal(ta, tb) == (xot.text_str(ta) == xot.text_str(tb)));
     sym::check("shallow-equal-mixed-kinds", !xot.shallow_equal(a, tb));
+}
+
+/// one leaf node of a kind; content symbolic
+fn leaf(xot: &mut Xot, nm: &Names, kind: usize, tag: &'static str) -> (Node, (usize, usize, String)) {
+    // returns the node and its canonical description (kind, name choice, content)
+    let c = one(tag);
+    match kind {
+        0 => (xot.new_text(&c), (0, 0, c)),
+        1 => (xot.new_comment(&c), (1, 0, c)),
+        2 => (xot.new_processing_instruction(nm.t, None), (2, 0, String::new())),
+        3 => (xot.new_processing_instruction(nm.b, None), (2, 1, String::new())),
+        4 => (xot.new_processing_instruction(nm.t, Some(&c)), (3, 0, c)),
+        5 => (xot.new_processing_instruction(nm.b, Some(&c)), (3, 1, c)),
+        6 => (xot.new_attribute_node(nm.x, c.clone()), (4, 0, c)),
+        7 => (xot.new_attribute_node(nm.y, c.clone()), (4, 1, c)),
+        8 | 9 => {
+            let p = xot.add_prefix("p");
+            let ns = xot.add_namespace(if kind == 8 { "urn:1" } else { "urn:2" });
+            (xot.new_namespace_node(p, ns), (5, kind - 8, String::new()))
+        }
+        _ => {
+            let q = xot.add_prefix("q");
+            let ns = xot.add_namespace("urn:1");
+            (xot.new_namespace_node(q, ns), (5, 2, String::new()))
+        }
+    }
+}
+
+/// the equality family on single non-element nodes of every kind, pairwise
+pub fn h_c13_leaves() {
+    let mut xot = Xot::new();
+    let nm = names(&mut xot);
+    let ka = sym::choose("ka", 11);
+    let kb = sym::choose("kb", 11);
+    let (a, da) = leaf(&mut xot, &nm, ka, "ca");
+    let (b, db) = leaf(&mut xot, &nm, kb, "cb");
+    let want = da == db;
+    sym::check("leaf-deep-equal", xot.deep_equal(a, b) == want);
+    sym::check("leaf-deep-equal-symmetric", xot.deep_equal(b, a) == want);
+    sym::check("leaf-shallow-equal", xot.shallow_equal(a, b) == want);
+    sym::check("leaf-shallow-equal-ignore-attributes", xot.shallow_equal_ignore_attributes(a, b, &[nm.x]) == want);
+    sym::check("leaf-deep-equal-xpath", xot.deep_equal_xpath(a, b, |x, y| x == y) == want);
+    sym::check("leaf-advanced-deep-equal", xot.advanced_deep_equal(a, b, |_| true, |x, y| x == y) == want);
+    sym::check("leaf-reflexive", xot.deep_equal(a, a) && xot.shallow_equal(b, b));
+    // as the only child of two equal elements
+    if ka < 6 && kb < 6 {
+        let ea = xot.new_element(nm.a);
+        let eb = xot.new_element(nm.a);
+        xot.append(ea, a).unwrap();
+        xot.append(eb, b).unwrap();
+        sym::check("leaf-as-child-deep-equal", xot.deep_equal(ea, eb) == want);
+        sym::check("leaf-as-child-deep-equal-children", xot.deep_equal_children(ea, eb) == want);
+    }
 }
